@@ -27,6 +27,7 @@ NAME_SCHEMES = [
     ["2-clique-blue", "3-clique", "2-clique-red", "4-cycle"],
     ["3-clique", "2-clique", "5-clique", "4-clique"],
     ["tri", "2-clique", "sq", "pent"],
+    ["2-clique", "2-clique-red", "3-clique", "2-clique-x"],   # the first name is a prefix of others
 ]
 
 
@@ -137,6 +138,13 @@ def check_jdd(res, t, keys, ws):
                     return
                 got = JointDegreeFromExcess.get_joint_degree_distribution(qd, list(names))
                 bad = same_dist(got, want_P)
+                if bad is None and t >= 2:
+                    # the same dict built in the opposite insertion order (keys, not positions, identify topologies)
+                    qd2 = {n: dict(qd[n]) for n in reversed(names)}
+                    res.executions += 1
+                    bad = same_dist(JointDegreeFromExcess.get_joint_degree_distribution(qd2, list(names)), want_P)
+                    if bad:
+                        bad = "with the qks dict inserted in reverse order: " + bad
             except BaseException as e:
                 bad = f"raised {e!r}"
                 if isinstance(e, KeyError):
